@@ -169,6 +169,15 @@ def gen_file(rng, sheets):
                 sp.sb.put(s, 4, r, t='e', v=code)
                 sp.expect[key] = {'kind': 'const', 'value': ('err', code)}
                 sp.wbcells[key] = ref.Err(code)
+        for r, form in ((5, 's'), (6, 'inlineStr'), (7, 'str')):
+            if rng.random() < 0.5:
+                continue
+            key = (s, 4, r)
+            v = rng.choice(['=A1+1', '=SUM(A1:B2)', '==', '=', '=x'])
+            sp.forms.add('text-with-equals-' + form)
+            sp.sb.put_value(s, 4, r, v, form=form)
+            sp.expect[key] = {'kind': 'const', 'value': ('text', v)}
+            sp.not_direct = getattr(sp, 'not_direct', set()) | {key}
         # formulas column E (plain), with and without cached values
         for r in range(1, 6):
             key = (s, 5, r)
@@ -265,6 +274,26 @@ def run(ctx):
             sp.names['NmRange'] = ('rng', s0, 1, 1, 2, 3, (True,) * 4)
             for nm, t in sp.names.items():
                 sp.sb.names.append((nm, build.name_target(t)))
+            # the range name used in a formula, next to a formula that spells
+            # the same rectangle literally (without $)
+            k1, k2 = (s0, 9, 1), (s0, 9, 2)
+            a1 = ('call', 'COUNTA', [('name', 'NmRange')])
+            a2 = ('call', 'COUNTA', [('rng', None, 1, 1, 2, 3, F4)])
+            for key, ast in ((k1, a1), (k2, a2)):
+                text = ref.render(ast)
+                sp.sb.put_formula(key[0], key[1], key[2], text, cached='3')
+                sp.expect[key] = {'kind': 'formula', 'formula': text,
+                                  'cached': ('num', 3.0),
+                                  'uses_name': key == k1}
+                sp.wbcells[key] = ('f', ast)
+            if 'NmCell' in sp.names:
+                k3 = (s0, 9, 3)
+                a3 = ('call', 'ISBLANK', [('name', 'NmCell')])
+                sp.sb.put_formula(k3[0], k3[1], k3[2], ref.render(a3))
+                sp.expect[k3] = {'kind': 'formula',
+                                 'formula': ref.render(a3), 'cached': None,
+                                 'uses_name': True}
+                sp.wbcells[k3] = ('f', a3)
         path = os.path.join(out, f's{ctx.shard}_{fi}.xlsx')
         sp.sb.write(path)
         forms_seen |= sp.forms
@@ -410,7 +439,8 @@ def run(ctx):
                 if want is not None and not close(got, want):
                     problems.append(f'evaluate({a}) [{exp["formula"]}] -> '
                                     f'{got}, reference {want[1]}')
-                if direct is not None:
+                if direct is not None and not exp.get('uses_name'):
+                    # (the dict path has no defined names)
                     gd = subject.outcome_of(lambda: direct.evaluate(a))
                     if not close(gd, got):
                         problems.append(
